@@ -1786,7 +1786,7 @@ def i_PSUBUSB(i, fmap):
         src1 = fmap(op1[__i : __i + 8])
         src2 = fmap(op2[__i : __i + 8])
         res = src1 - src2
-        fmap[op1[__i : __i + 8]] = tst(src1 < src2, cst(0, op1.size), res)
+        fmap[op1[__i : __i + 8]] = tst(src1 < src2, cst(0, 8), res)
 
 
 def i_PMAXUB(i, fmap):
